@@ -29,6 +29,7 @@ import (
 	"runtime"
 	"strconv"
 	"strings"
+	"sync/atomic"
 	"testing"
 	"time"
 
@@ -42,7 +43,10 @@ import (
 	"verif/harness/lib/tsdemux"
 )
 
-func TestMain(m *testing.M) { evid.Main(m, "C10") }
+func TestMain(m *testing.M) {
+	xlog.ReplaceGlobal(xlog.New(xlog.NewNopCore())) // media.Stream and the HTTP handlers log every request
+	evid.Main(m, "C10")
+}
 
 const (
 	videoPID = 0x100
@@ -353,6 +357,12 @@ type srcFrame struct {
 
 func (f *srcFrame) key() bool { return f.hdr&0x1f == 5 }
 
+type opener struct {
+	audio   bool
+	pts     int64
+	arrival int
+}
+
 type keptReader struct {
 	seq    int
 	r      io.Reader
@@ -408,11 +418,12 @@ type engine struct {
 	flushed    bool
 
 	segs    map[int][]byte
-	openPTS map[int]int64 // where the segment's duration count started, as far as the outputs tell
+	openedBy map[int]opener // the write after which segment seq-1 was first seen complete: it opened seq
+	allPTS   []int64        // stamp of every written frame, by arrival
+	cur      opener         // the write in progress
 	lastSeq int
 	closed  bool
 
-	prevSegFirstV int
 
 	readers []*keptReader
 	held    []heldPlaylist
@@ -429,7 +440,7 @@ func readAllClose(r io.Reader) ([]byte, error) {
 // run executes a case against ipchub and judges it. work is a directory the
 // case may create its HLS directory in.
 func run(c *caseSpec, work string) (res *result, f *failure) {
-	e := &engine{c: c, res: &result{}, segs: map[int][]byte{}, openPTS: map[int]int64{}, sps: mustHex(c.SPS), pps: mustHex(c.PPS), properV: -1}
+	e := &engine{c: c, res: &result{}, segs: map[int][]byte{}, openedBy: map[int]opener{}, sps: mustHex(c.SPS), pps: mustHex(c.PPS), properV: -1}
 	res = e.res
 	if c.Disk {
 		d, err := os.MkdirTemp(work, "c10-")
@@ -528,6 +539,8 @@ func (e *engine) write(i int, o *op) *failure {
 	}
 	audio := o.K == "a"
 	fr := srcFrame{hdr: o.Hdr, payload: payload(i, audio, o.Hdr, o.Size), pts: o.PTS, dts: o.DTS, arrival: e.arrivals}
+	e.cur = opener{audio: audio, pts: o.PTS, arrival: e.arrivals}
+	e.allPTS = append(e.allPTS, o.PTS)
 	e.arrivals++
 	cf := &codec.Frame{MediaType: codec.MediaTypeVideo, Payload: fr.payload, Pts: ns(o.PTS), Dts: ns(o.DTS)}
 	if audio {
@@ -604,6 +617,9 @@ func (e *engine) capture(seq int, r io.Reader, size int) *failure {
 	}
 	e.segs[seq] = append([]byte(nil), b...)
 	e.lastSeq = seq
+	if !e.c.Stream {
+		e.openedBy[seq+1] = e.cur
+	}
 	return e.judgeSegment(seq, e.segs[seq])
 }
 
@@ -660,15 +676,9 @@ func (e *engine) judgeSegment(seq int, ts []byte) *failure {
 	}
 
 	firstVideo := true
-	prevVideoArrival := -1
-	if e.curV > 0 {
-		prevVideoArrival = e.srcV[e.curV-1].arrival
-	}
 	keyStart, sawVideo := false, false
-	segFirstV := e.prevSegFirstV // first source video frame of the previous segment
 	var firstVideoSrc *srcFrame
 	firstVideoIdx := 0
-	firstAudioPTS := int64(-1)
 	for _, p := range r.All {
 		switch p.PID {
 		case videoPID:
@@ -750,9 +760,6 @@ func (e *engine) judgeSegment(seq int, ts []byte) *failure {
 				}
 				e.curA++
 				if k == 0 {
-					if firstAudioPTS < 0 {
-						firstAudioPTS = src.pts
-					}
 					// aac_jitter.go: the PES stamp is the source stamp or an estimate within +-100 ms of it
 					if p.PTS == nil {
 						return fail("frame-pts", "segment %d: audio PES without PTS", seq)
@@ -766,52 +773,45 @@ func (e *engine) judgeSegment(seq int, ts []byte) *failure {
 		}
 	}
 
-	if sawVideo {
-		e.prevSegFirstV = firstVideoIdx
-	}
-	// bookkeeping for the classification of the one known defect
 	switch {
 	case seq == 1:
-		e.openPTS[seq] = 0
 		e.res.class("segment:first")
 	case keyStart:
-		e.openPTS[seq] = firstVideoSrc.pts
 		e.res.class("segment:starts-with-SPS+PPS+IDR")
 	case !sawVideo:
-		e.openPTS[seq] = firstAudioPTS
 		e.res.class("segment:audio-only")
 	}
 	if seq > 1 && sawVideo && !keyStart {
 		// The segment was cut in the middle of a GOP. The one way ipchub is known
 		// to do that: an audio frame arrived when the previous segment had lasted
 		// >= 2x the fragment length (SegmentGenerator.WriteMpegtsFrame, "absolutely
-		// overflow"). Exactly that class is skipped when listed; anything else fails.
-		trigger := int64(-1)
-		if open, ok := e.openPTS[seq-1]; ok && e.c.Fragment > 0 {
-			reach := int64(-1) // latest stamp the previous segment had seen when the audio frame came
-			for k := segFirstV; k < firstVideoIdx; k++ {
-				reach = max(reach, e.srcV[k].pts)
+		// overflow"). The harness saw which write completed the previous segment
+		// (= opened this one) and which write had opened that one, so the class is
+		// told from observations: opened by an audio write, and some frame written
+		// into the previous segment (the cached audio is stamped up to 100 ms off)
+		// lies >= 2x fragment behind the stamp that segment was opened with.
+		// Exactly that class is skipped when listed; anything else fails.
+		why := "the write that completed the previous segment was a video frame"
+		known := false
+		if by, ok := e.openedBy[seq]; ok && by.audio && e.c.Fragment > 0 {
+			prev := e.openedBy[seq-1] // zero value for segment 1: opened at stamp 0 before any frame
+			reach := int64(-1)
+			for k := prev.arrival; k <= by.arrival && k < len(e.allPTS); k++ {
+				reach = max(reach, e.allPTS[k])
 			}
-			for k := range e.srcA {
-				a := &e.srcA[k]
-				if a.arrival > prevVideoArrival && a.arrival < firstVideoSrc.arrival &&
-					max(reach, a.pts)-open >= int64(2*e.c.Fragment)*90000-45000 {
-					trigger = a.pts
-					break
-				}
+			if reach+9000-prev.pts >= int64(2*e.c.Fragment)*90000 {
+				known = true
+				why = fmt.Sprintf("the audio frame with pts %d completed the previous segment, which had been opened at %d and had seen stamps up to %d", by.pts, prev.pts, reach)
+			} else {
+				why = fmt.Sprintf("the audio frame with pts %d completed the previous segment although that one, opened at %d, had seen stamps up to %d only: less than twice the fragment length", by.pts, prev.pts, reach)
 			}
 		}
-		if trigger >= 0 && evid.Known(sigAudioCut) {
+		if known && evid.Known(sigAudioCut) {
 			evid.Excluded(sigAudioCut)
 			e.res.knownSkips++
-			e.openPTS[seq] = trigger
 			e.res.class("segment:cut-mid-GOP-by-audio(known)")
 		} else {
-			why := "no audio frame arrived between the two video frames after twice the fragment length"
-			if trigger >= 0 {
-				why = fmt.Sprintf("an audio frame (pts %d) arrived after the previous segment had lasted twice the fragment length", trigger)
-			}
-			return fail("segment-start", "segment %d begins its video with source frame %d, NAL type %d, not a key frame: the GOP that began in an earlier segment continues here (%s)", seq, e.curV-1, firstVideoSrc.hdr&0x1f, why)
+			return fail("segment-start", "segment %d begins its video with source frame %d, NAL type %d, not a key frame: the GOP that began in an earlier segment continues here (%s)", seq, firstVideoIdx, firstVideoSrc.hdr&0x1f, why)
 		}
 	}
 	return nil
@@ -987,10 +987,17 @@ func (e *engine) read(idx, n int) *failure {
 	if len(e.readers) == 0 {
 		return nil
 	}
-	kr := e.readers[((idx%len(e.readers))+len(e.readers))%len(e.readers)]
-	if kr.eof {
+	// idx counts among the readers that have not reached their end, oldest first
+	var open []*keptReader
+	for _, r := range e.readers {
+		if !r.eof {
+			open = append(open, r)
+		}
+	}
+	if len(open) == 0 {
 		return nil
 	}
+	kr := open[((idx%len(open))+len(open))%len(open)]
 	want := e.segs[kr.seq]
 	var buf []byte
 	if n < 0 {
@@ -1089,11 +1096,18 @@ func (e *engine) openStream() *failure {
 	return nil
 }
 
+var syncTimeouts atomic.Int32
+
 // sync waits until the muxer goroutine has completed segment seq (the case
 // generator knows from the construction of its GOPs that it must). Waiting is
 // not a verdict: a case that does not get there is dropped as infrastructure.
 func (e *engine) sync(seq int) *failure {
-	deadline := time.Now().Add(20 * time.Second)
+	if syncTimeouts.Load() >= 3 {
+		// segments do not show up in this process: do not spend the budget waiting
+		e.res.infra = "earlier cases already waited in vain for their segments"
+		return nil
+	}
+	deadline := time.Now().Add(5 * time.Second)
 	for e.lastSeq < seq {
 		if f := e.afterWrite(); f != nil {
 			return f
@@ -1102,7 +1116,8 @@ func (e *engine) sync(seq int) *failure {
 			break
 		}
 		if time.Now().After(deadline) {
-			e.res.infra = fmt.Sprintf("segment %d did not appear within 20 s (last complete %d)", seq, e.lastSeq)
+			syncTimeouts.Add(1)
+			e.res.infra = fmt.Sprintf("segment %d did not appear within 5 s (last complete %d)", seq, e.lastSeq)
 			return nil
 		}
 		// keep asking for the playlist while the muxer goroutine rolls the window
